@@ -68,6 +68,16 @@ EvDecl(ev) ==
         /\ cnt' = cnt + 1
   /\ UNCHANGED <<phase, flushq>>
 
+(* the model diagnoses this declaration after declcommon has returned (e.g. the 6.7.1p3 check of the repaired *)
+(* model): accepted only if the compiler indeed stopped right here with a failure status                    *)
+EvDeclErr(ev) ==
+  /\ ev.e = "decl" /\ phase = "run"
+  /\ LET d == [id |-> ev.name, path |-> ev.path, sc |-> ev.sc, tls |-> ev.tls, inl |-> ev.inl, kind |-> ev.kind,
+               def |-> "none", asm |-> ev.asm]
+     IN Phase1(tm, d, cnt + 1, DevsOn).m.err # ""
+  /\ l < NT /\ Trace[l + 1].e = "Reset" /\ ~Trace[l + 1].ok
+  /\ UNCHANGED <<tm, stk, dmap, cnt, phase, flushq>>
+
 EvTent(ev) ==
   /\ ev.e = "tent" /\ phase = "run" /\ stk # <<>> /\ stk[1].ev = ev.d
   /\ stk' = [stk EXCEPT ![1].tents = @ + 1]
@@ -118,7 +128,7 @@ EvReset(ev) ==
 TStep ==
   /\ l <= NT
   /\ LET ev == Trace[l] IN
-       EvOther(ev) \/ EvDecl(ev) \/ EvTent(ev) \/ EvDefRun(ev) \/ EvDeclEnd(ev) \/ EvEot(ev) \/ EvDefFlush(ev) \/ EvReset(ev)
+       EvOther(ev) \/ EvDecl(ev) \/ EvDeclErr(ev) \/ EvTent(ev) \/ EvDefRun(ev) \/ EvDeclEnd(ev) \/ EvEot(ev) \/ EvDefFlush(ev) \/ EvReset(ev)
   /\ l' = l + 1
   /\ UNCHANGED vars
 
